@@ -223,6 +223,7 @@ class SeqCheck:
         return True
 
     test_binary = False   # harness is a Go test (needed for testing/synctest)
+    harness_timeout = 900
 
     def variants(self):
         """list of (binary name, extra harness args); every variant runs corpus and generated histories"""
@@ -230,7 +231,7 @@ class SeqCheck:
 
     def run_harness(self, args, out, variant=None):
         hbin, extra = variant or self.variants()[0]
-        cmd = [os.path.join(BIN, hbin)] + extra + args + ["-out", out]
+        cmd = ["timeout", "-s", "KILL", str(self.harness_timeout), os.path.join(BIN, hbin)] + extra + args + ["-out", out]
         r = sh(cmd, env=dict(os.environ, **self.harness_env()))
         if r.returncode != 0:
             log("harness failed:", " ".join(cmd))
@@ -377,7 +378,12 @@ class SeqCheck:
                 procs.append((subprocess.Popen(cmd, stdout=subprocess.PIPE, stderr=subprocess.STDOUT, text=True,
                                                env=dict(os.environ, **self.harness_env())), out, cmd))
             for p, out, cmd in procs:
-                o, _ = p.communicate()
+                try:
+                    o, _ = p.communicate(timeout=self.harness_timeout)
+                except subprocess.TimeoutExpired:
+                    p.kill()
+                    o, _ = p.communicate()
+                    o = (o or "") + "\nHARNESS TIMED OUT after %d s (deadlock or livelock in the implementation?)" % self.harness_timeout
                 if p.returncode != 0:
                     log("harness failed:", " ".join(cmd))
                     log(o[-3000:])
